@@ -516,11 +516,25 @@ impl Replayer {
                 }
             }
             "Write" => {
+                let gid0 = self.w.gid.clone();
                 let party = self.w.parties.get_mut(&p).unwrap();
                 let g = party.group.as_mut().unwrap();
+                let pre = g.verif_state();
                 match g.write_to_storage() {
                     Ok(()) => {
                         let st = g.verif_state();
+                        // C06: every prior-epoch record that was queued as an update is in storage as it was queued
+                        // (unless retention has trimmed that epoch)
+                        let gs = party.gs.clone();
+                        let kept = gs.stored_epochs(&gid0);
+                        let upd = pre.pending_update_epochs();
+                        if !upd.is_empty() && upd.iter().all(|e| kept.contains(e)) {
+                            if !pre.pending_updates_only_cached(&st, |id| gs.peek_epoch(&gid0, id)) {
+                                viol!(self, ["C06", "C19"], "stored-update-lost", "{p}: after write_to_storage a stored prior epoch among {upd:?} is not the record that was queued for update");
+                            }
+                            self.w.bump("stored_update_checks");
+                            if upd.windows(2).any(|w| w[0] > w[1]) { self.w.bump("stored_update_checks:newer-epoch-first"); }
+                        }
                         self.w.written.insert(p.clone(), st);
                         // C07: once the joiner persists its group the used key package is gone from its store
                         if let Some(id) = self.w.joined_with.get(&p) {
@@ -1552,6 +1566,12 @@ impl Replayer {
                 self.w.bump("tamper_other_epoch_tree");
             }
         }
+        // the authentic tree with blank nodes appended (a well-formed vector that ends in blanks)
+        if let Some(tb) = tree_bytes.as_ref() {
+            if let Some(padded) = crate::codec::append_blank_nodes(tb, 2) {
+                variants.push(("tree: two blank nodes appended".to_string(), wbytes.clone(), Some(padded)));
+            }
+        }
         for (what, wb, tb) in variants {
             let m = match MlsMessage::from_bytes(&wb) {
                 Ok(m) => m,
@@ -1568,7 +1588,11 @@ impl Replayer {
                 Ok(Err(_)) => self.w.bump("tamper_rejected"),
                 Ok(Ok((g, _))) => {
                     let d = reference.diff(&g.verif_state());
-                    if d.is_empty() {
+                    if what.starts_with("tree:") {
+                        // the ratchet tree given out of band has no part addressed to somebody else: every accepted
+                        // modification is a violation, whatever group it yields
+                        viol!(self, ["C03", "C07"], "tamper-accepted", "{p}: a modified ratchet tree ({what}) was accepted with the authentic Welcome (group differs in {d:?})");
+                    } else if d.is_empty() {
                         self.w.bump("tamper_welcome_unaffected");
                         if wmsg.welcome_key_package_references().len() == 1 {
                             self.w.bump("tamper_welcome_unaffected_single");
